@@ -928,25 +928,9 @@ fn merge_unmodelled(l: &Ty, r: &Ty) -> bool {
     })
 }
 
-/// classification of a merge mismatch: the recorded class (two struct columns of the same name that are both NULL in
-/// every row, at any depth) or a new one
-fn merge_key(a: &dyn Array, b: &dyn Array) -> &'static str {
-    fn both_all_null(a: &dyn Array, b: &dyn Array, top: bool) -> bool {
-        let (DataType::Struct(_), DataType::Struct(_)) = (a.data_type(), b.data_type()) else { return false };
-        if !top && a.len() > 0 && a.null_count() == a.len() && b.null_count() == b.len() {
-            return true;
-        }
-        let (sa, sb) = (a.as_struct(), b.as_struct());
-        sa.fields().iter().zip(sa.columns()).any(|(f, c)| match sb.column_by_name(f.name()) {
-            Some(rc) => both_all_null(c.as_ref(), rc.as_ref(), false),
-            None => false,
-        })
-    }
-    if both_all_null(a, b, true) {
-        "merge_both_all_null"
-    } else {
-        "merge_values"
-    }
+/// classification of a merge mismatch (one class: every validity-rule defect found so far is fixed)
+fn merge_key(_a: &dyn Array, _b: &dyn Array) -> &'static str {
+    "merge_values"
 }
 
 // ---------------------------------------------------------------------------------------------
